@@ -79,6 +79,7 @@ func ruleC11(c *Check) {
 	c.expiredBatchRules("C11", map[string]bool{"dequeue": true, "continuation": true, "delete-after-dequeue": true, "dequeue-before-enqueue": true})
 	c.startRules("C11")
 	c.heightSkeletons("C11.5")
+	c.scanOrder("C11.1")
 	c.contextFieldRules("C11", map[string]bool{"update": true, "batchstate": true, "state": true})
 	c.requestValidation("C11.5")
 	c.contextDeleters("C11")
